@@ -35,8 +35,8 @@ LEVEL_TEXT = ('Coq theorems over an executable Gallina model of NestedCommandsIr
               'the machine refines a post-order, left-to-right, stop-at-first-stop functional specification for every command tree and every '
               'dispatch/behaviour function whenever the stack budget covers the number of sub-commands, with a refuting witness beyond it; '
               'nesting refusal; dispatch clauses (single plugin, qualified names on a decidable domain + refutation, ambiguity, disabled); '
-              'DisabledCommands.add/remove/disabled and Owner.disable/enable as a state machine: after any history inside hist_dom the in-memory '
-              'table answers like the documented semantics (refutations outside, finding C14.F24) and a command left disabled everywhere is never selected.  '
+              'DisabledCommands.add/remove/disabled and Owner.disable/enable as a state machine: after any history the in-memory '
+              'table answers like the documented semantics (full statement since the repair of C14.F24) and a command left disabled everywhere is never selected.  '
               'The model is tied to the source by regenerated constants/shape checks and a differential run against a live bot on every check.')
 LEVEL_NOTE = ('Trusted: Coq kernel, gen_tables.py/t14.py, extraction + OCaml driver, the Python harness (synthetic plugin generator, canonicaliser); '
               'command behaviours are an arbitrary function in the theorems and a small DSL in the correspondence; Python thread interleaving beyond '
@@ -181,6 +181,8 @@ def plugin_table(S):
 def apply_settings(S, st):
     conf, callbacks = S['conf'], S['callbacks']
     callbacks.Commands._disabled.d.clear()
+    if hasattr(callbacks.Commands._disabled, 'everywhere'):
+        callbacks.Commands._disabled.everywhere.clear()
     conf.supybot.commands.disabled().clear()
     for cmd, plug in st.get('disabled', []):
         # what Owner.disable does (plugins/Owner/plugin.py disable): plugin._disabled.add(command[, plugin.name()])
@@ -474,52 +476,20 @@ def cls_group_shadow(inp):
     return any(cn(g) in names for p in inp['plugins'] for g, _ in p.get('groups', []))
 
 
-def spec_sim(inp):
-    """documented semantics of disable/enable over the owner operations of a history (Python twin of Model.spec_step /
-    hist_dom): returns (in_domain, per-step (G, P) after the step)"""
-    S = bot()
-    cn = S['callbacks'].canonicalName
-    has = {(cn(p['name']), c) for p in inp['plugins'] for c, _ in p['cmds'] if c == cn(c)}
-    G, P, dom, states = set(), set(), True, []
-    for st in inp['steps']:
-        if st['op'] in ('disable', 'enable') and st.get('by', 'owner') == 'owner':
-            c, p = cn(st['cmd']), (cn(st['plugin']) if st.get('plugin') else None)
-            anyp = any(k == c for _, k in P)
-            if st['op'] == 'disable':
-                if c not in S['C']['undisablable']:
-                    if p is None:
-                        dom = dom and not anyp
-                        G.add(c)
-                    elif (p, c) in has and c not in G and (p, c) not in P:
-                        P.add((p, c))
-            else:
-                if p is None:
-                    if c in G:
-                        G.discard(c)
-                    else:
-                        dom = dom and not anyp
-                elif (p, c) in P:
-                    P.discard((p, c))
-        states.append((set(G), set(P)))
-    return dom, states
-
-
-def cls_mixed_scope(inp):
-    """a history that disables a command everywhere, or asks to enable it everywhere while it is not disabled
-    everywhere, at a moment when the command has per-plugin disable entries"""
-    return 'steps' in inp and not spec_sim(inp)[0]
-
-
-CLASSES = {'many_subcommands_stack': cls_stack, 'subcallback_named_like_plugin': cls_group_shadow,
-           'mixed_scope_disable_enable': cls_mixed_scope}
+CLASSES = {'many_subcommands_stack': cls_stack, 'subcallback_named_like_plugin': cls_group_shadow}
 
 
 # ------------------------------------------------------------------ histories of disable / enable / calls
 def snapshot(S):
+    """(commands disabled everywhere, [command, plugins]) of the table behind Commands.isDisabled, and the registry list"""
     cn = S['callbacks'].canonicalName
-    d = S['callbacks'].Commands._disabled.d
-    mem = sorted([cn(k), None if v is None else sorted(v)] for k, v in d.items())
-    return mem, sorted(S['conf'].supybot.commands.disabled())
+    t = S['callbacks'].Commands._disabled
+    per = sorted([cn(k), sorted(v)] for k, v in t.d.items() if v is not None)
+    if hasattr(t, 'everywhere'):
+        everywhere = sorted(t.everywhere)
+    else:       # representation before the repair of C14.F24: d[command] is None
+        everywhere = sorted(cn(k) for k, v in t.d.items() if v is None)
+    return [everywhere, per], sorted(S['conf'].supybot.commands.disabled())
 
 
 def step_line(st):
@@ -559,7 +529,7 @@ def run_history(ctx, S, inp, kind, with_model=True):
             ilog, iout = impl_run(S, step_line(st), OWNER if by_owner else SENDER)
             ok = iout == ['reply', success]
             now = snapshot(S)
-            sem = lambda sn: ([e for e in sn[0] if e[1] != []], sn[1])    # an empty plugin set disables nothing
+            sem = lambda sn: ([sn[0][0], [e for e in sn[0][1] if e[1] != []]], sn[1])    # an empty plugin set disables nothing
             if not ok and sem(now) != sem(prev):
                 fail = fail or ('step %d `%s` was refused (%r) but changed the disabled tables: %r -> %r'
                                 % (i + 1, step_line(st), iout, prev, now))
@@ -596,7 +566,7 @@ def finish_history(ctx, S, r, o):
         return
     for i, (ob, mo) in enumerate(zip(r['obs'], o)):
         if ob[0] == 'op':
-            mem = sorted([wire.s(kv[0]), wire.o(kv[1], lambda v: sorted(wire.ls(v)))] for kv in mo[1])
+            mem = [sorted(wire.ls(mo[1][0])), sorted([wire.s(kv[0]), sorted(wire.ls(kv[1]))] for kv in mo[1][1])]
             m = [bool(mo[0]), mem, sorted(wire.ls(mo[2]))]
             if m != ob[1:]:
                 ctx.disagree(inp, ['step', i + 1] + m, ['step', i + 1] + ob[1:], 'disable/enable: success, Commands._disabled.d, supybot.commands.disabled')
@@ -808,7 +778,7 @@ HCORPUS = [
     {'plugins': _P2, 'steps': _ops('udisable a', 'al a', 'disable a', 'uenable a', 'al a', 'disable enable', 'disable identify', 'disable Al zz', 'disable zz', 'enable zz')},
     {'plugins': _P2, 'steps': _ops('disable D_UP', 'dup', 'al dup', 'enable dup', 'dup 1', 'disable al DUP', 'al dup', 'enable AL d-up', 'al dup 2')},
 ]
-# witnesses of finding C14.F24 (both in class mixed_scope_disable_enable)
+# witnesses of the repaired defect C14.F24 (fixed: they run first on every check)
 W_MIXED = {'plugins': _P2, 'steps': _ops('disable Al a', 'enable a', 'al a 1')}
 W_MIXED2 = {'plugins': _P2, 'steps': _ops('disable Al a', 'disable a', 'enable a', 'al a 1')}
 
@@ -840,7 +810,7 @@ def run(ctx):
     S = bot()
     rng = ctx.rng
     recs = []
-    for h in HCORPUS + [W_MIXED, W_MIXED2]:
+    for h in [W_MIXED, W_MIXED2] + HCORPUS:
         recs.append(run_history(ctx, S, h, 'history-corpus'))
     for i in range(ctx.n(500)):
         recs.append(run_history(ctx, S, gen_history(rng), 'history'))
